@@ -21,7 +21,8 @@ def schedule_flags(sid: int) -> dict:
     """Which faults a schedule id enables (swarm style, fixed)."""
     if sid == 0:
         return dict(perm_jobs=False, perm_events=False, rename=False,
-                    shift=False, dup=None, subsample=False, kmax_in=2)
+                    shift=False, dup=None, subsample=False, kmax_in=2,
+                    via_cli=False)
     r = random.Random(core.grid("flags", sid))
     return dict(
         perm_jobs=r.random() < 0.8,
